@@ -45,6 +45,8 @@ pub(crate) use ids::{ScannerModeID, TerminalID, TerminalIDBase};
 
 #[cfg(not(feature = "regex_automata"))]
 pub(crate) use ids::{CharClassID, StateID, StateIDBase};
+#[cfg(scnr_verif)]
+pub(crate) use ids::{CharClassIDBase, StateGroupIDBase};
 
 /// Module that provides functions and types related to match functions.
 #[cfg(not(feature = "regex_automata"))]
